@@ -224,7 +224,7 @@ var c13Scopes = []uint8{
 	c13All | c13Eth1, // allInterfaces together with a (meaningless) list
 }
 
-var c13BadVariants = []string{"foreign-mac", "near-mac", "multicast-mac", "op-reply", "op-reply-unicast", "op-rarp", "op-zero", "op-inarp", "ethertype-ipv4"}
+var c13BadVariants = []string{"foreign-mac", "near-mac", "multicast-mac", "op-reply", "op-reply-unicast", "op-rarp", "op-zero", "op-inarp", "ethertype-ipv4", "truncated-arp", "truncated-ethernet"}
 
 func c13BadClass(variant string) string {
 	switch {
@@ -232,6 +232,8 @@ func c13BadClass(variant string) string {
 		return "foreign-destination"
 	case strings.HasPrefix(variant, "op-"):
 		return "non-request-operation"
+	case strings.HasPrefix(variant, "truncated"):
+		return "truncated-frame"
 	default:
 		return "non-arp-ethertype"
 	}
@@ -468,6 +470,12 @@ func (e *c13Exec) requestFrame(op *c13Op) ([]byte, [6]byte, [4]byte) {
 		a.op = 8
 	case "ethertype-ipv4":
 		a.ethertype = 0x0800
+	case "truncated-arp": // ARP ethertype, body cut short (what a broken sender or a capture glitch puts on the wire)
+		b := c13Encode(a, false)
+		return b[:14+4+op.ID%20], sender, senderIP
+	case "truncated-ethernet":
+		b := c13Encode(a, false)
+		return b[:3+op.ID%10], sender, senderIP
 	default:
 		panic("c13: unknown variant " + op.Variant)
 	}
@@ -921,6 +929,13 @@ func c13Judge(c *vfCase, ops []c13Op) (clean bool) {
 		if op.Kind == "req" || op.Kind == "bad" {
 			if op.Answered != (op.Reason == int(dropReasonNone)) {
 				c.Count("drop-reason-disagrees-with-frame")
+			}
+			c.Eval()
+			if op.Reason == int(dropReasonClosed) {
+				// the responder's loop ends on this verdict; the socket is open and services are announced
+				violation("responder-gives-up-on-an-open-socket:"+op.Variant,
+					fmt.Sprintf("frame variant %q on %s made the responder report its socket as closed: its loop ends and the node stops answering on %s", op.Variant, c13IntfName[op.Intf], c13IntfName[op.Intf]),
+					c13Detail(ops, map[string]any{"op": op.ID}))
 			}
 			if op.Kind == "req" && op.Answered {
 				c.Eval()
